@@ -103,7 +103,18 @@ def main(tier, replay):
         for s in scns:
             grid = list(range(0, s["Dur"], s["H"]))
             k = rnd.choice([1, 1, 2, 3])
-            s["pauses"] = sorted(rnd.sample(grid, min(k, len(grid))))
+            # half of the pause points sit right before an event of the schedule (the last grid time <= a threshold)
+
+            def thresholds(c):
+                return [c["thr"]] if c["op"] == "atom" else thresholds(c["a"]) + thresholds(c["b"])
+            thr = [c["thr"] if c["kind"] == "sim" else (c["thr"] - s["Start"]) % 86400 for c in s["ctl"]]
+            for r in s["rules"]:
+                thr += thresholds(r["cond"])
+            near = sorted({(t // s["H"]) * s["H"] for t in thr if 0 <= t < s["Dur"]})
+            ps = set()
+            while len(ps) < min(k, len(grid)):
+                ps.add(rnd.choice(near) if near and rnd.random() < 0.5 else rnd.choice(grid))
+            s["pauses"] = sorted(ps)
             s["pickle"] = rnd.random() < 0.5
     for i, s in enumerate(scns):
         s["id"] = i + 1
@@ -117,7 +128,7 @@ def main(tier, replay):
         with cf.ProcessPoolExecutor(max_workers=common.NCPU) as ex:
             obs = list(ex.map(observe_paused, det, chunksize=16))
         for s, o in zip(det, obs):
-            tag = " [eq-atom window differs]" if c04.eq_preempted(s, o.get("times", [])) else ""
+            tag = " [eq-atom window differs]" if c04.eq_preempted(s, sorted(set(o.get("times", [])) | set(exp[s["id"]]["mt"]))) else ""
             for clause, detail in c04.compare(s, exp[s["id"]], o):
                 clause = {"C04.timeline": "C10.concat_equal", "C04.partial_step": "C10.concat_equal",
                           "C04.run": "C10.run"}.get(clause, clause)
